@@ -866,6 +866,19 @@ fn main() {
             ));
         }
     }
+    for c in &w.order {
+        let s = &w.memo[c];
+        if let Some(d) = &s.facts.stale_fp_after_refill {
+            violations.push((
+                s.level,
+                usize::MAX,
+                usize::MAX,
+                "cache_refill:stale_fingerprint".to_string(),
+                format!("{}: {d} - the next call with the old shape will take the foreign data for its own", w.call_label(c)),
+                json!({"history": s.hist.iter().map(|a| a.to_json()).collect::<Vec<_>>(), "bases": w.base_names, "call": w.call_label(c)}),
+            ));
+        }
+    }
     // shortest history first, so that the case kept per key is the minimal one
     violations.sort_by(|a, b| (a.0, a.1, a.2).cmp(&(b.0, b.1, b.2)));
     for (_, _, _, k, what, rp) in violations {
